@@ -856,14 +856,27 @@ func main() {
 					ok, msg := prepare(v.built.Query, q)
 					qo.res = append(qo.res, qres{v.svc, v.ver, ok})
 					if !ok {
-						// the class of the refusal is read off the version's schema and the query, not off the message
+						// The class of the refusal is computed from schemas and the query, never from the message.  The
+						// intersection of the service's versions is sound (Props/C09.intersection_sound): a query that is
+						// valid against it is accepted by every version.  So a refusal by a version is either a violation
+						// of that soundness -- the query IS valid against the service's own intersected schema -- or the
+						// query uses, on the input side, something the service's intersection does not have and the union
+						// with the other services re-supplied: an argument, an enum value, an input-object field (the
+						// three open "union keeps ..." findings, reported independently by oracle (g) above).  The root
+						// cause is therefore read off the SERVICE's intersected schema: a version may stumble over a
+						// different detail of the same re-supplied input (s1 = {v1: e2 with all colours, v2: e2 with fewer
+						// colours, v3: no e2}: the intersection has no e2; asked `qf1(e2: GREEN)`, v2 trips over GREEN).
 						sig := "merged-valid-query-rejected-by-version"
-						switch why := whyRefused(v.rs, q); {
+						why := whyRefused(v.rs, q)
+						if ps, has := perSvc[v.svc]; has && ps.ok && ps.s != nil {
+							why = whyRefused(ps.s, q)
+						}
+						switch {
 						case why.other:
-						case why.enum && known[sigEnum]:
-							sig = sigEnum
 						case why.arg && known[sigArg]:
 							sig = sigArg
+						case why.enum && known[sigEnum]:
+							sig = sigEnum
 						case why.input && known[sigInput]:
 							sig = sigInput
 						}
